@@ -36,7 +36,8 @@ fn hostile_field(r: &mut Rng) -> Field {
             if r.chance(1, 4) {
                 a.argument_type = ArgumentType::Constant((0..r.range(0, 3)).map(|_| hs(r)).collect());
             } else if r.chance(1, 6) {
-                a.argument_type = ArgumentType::Display(hs(r));
+                a.argument_type = ArgumentType::Display(if r.chance(1, 2) { hs(r) } else {
+                    (*r.pick(&["number", "string", "table", "any", "...", "nil", "bool", "function", "Number"])).to_string() });
             }
             a.deprecated = hostile_deprecated(r);
         }
